@@ -7,6 +7,8 @@ from props.common import default_encode, default_decode
 
 PROP = 'C10'
 BIN = 'c10'
+# dense digit-count pass (run.dense_table): width-dependent estimates (digit counts, exponents) make every width interesting here
+DENSE = {'quick': {64: 128}, 'thorough': {8: 1024, 16: 512, 32: 256}}
 SIG = {'ps': 'sd', 'pd': 'sd'}
 encode = default_encode(SIG)
 decode = default_decode(SIG)
@@ -125,6 +127,12 @@ def gen_string(cfg, rng):
     if m < 0.10:
         pos = rng.randrange(len(sign), len(s) + 1)
         bad = rng.choice((b' ', b'_', b'.', b',', b'/', b':', b'@', b'[', b'`', b'{', b'\t', b'\n', b'\x00', b'-', b'+'))
+        if rng.random() < 0.4:
+            # any ASCII byte that is not a letter or digit (the fixed pool above only has the neighbours of the digit / letter ranges)
+            c = rng.randrange(128)
+            while chr(c).isalnum():
+                c = rng.randrange(128)
+            bad = bytes([c])
         s = s[:pos] + bad + s[pos:]
     elif m < 0.18 and r < 36:
         pos = rng.randrange(len(sign), len(s))
@@ -134,10 +142,18 @@ def gen_string(cfg, rng):
         s = s[:pos] + bytes([badd]) + s[pos + 1:]
     elif m < 0.23:
         pos = rng.randrange(0, len(s) + 1)
-        s = s[:pos] + rng.choice(NONASCII) + s[pos:]
+        na = rng.choice(NONASCII)
+        if rng.random() < 0.6:
+            # any Unicode scalar value above U+007F (2-, 3- and 4-byte encodings): bytes of a multi-byte character must never be read as digits
+            cp = rng.choice((rng.randrange(0x80, 0x800), rng.randrange(0x80, 0x100), rng.randrange(0x800, 0xd800), rng.randrange(0xe000, 0x10000), rng.randrange(0x10000, 0x110000)))
+            na = chr(cp).encode()
+        s = s[:pos] + na + s[pos:]
     elif m < 0.27:
         pos = rng.randrange(0, len(s) + 1)
-        s = s[:pos] + rng.choice(BADUTF8) + s[pos:]
+        bu = rng.choice(BADUTF8)
+        if rng.random() < 0.5:
+            bu = bytes([rng.randrange(0x80, 0x100)])   # a lone byte >= 0x80 is never valid UTF-8
+        s = s[:pos] + bu + s[pos:]
     elif m < 0.30:
         s = rng.choice((b'+', b'-')) + s
     elif m < 0.33:
@@ -365,3 +381,21 @@ REQUIRED = ['radix out of range', 'invalid UTF-8 (parse_bytes only)', 'error Emp
 
 def floors(st, tier):
     return ['class %r never observed' % c for c in REQUIRED if st['classes'].get(c, 0) == 0]
+
+
+def dense_requests(cfg, rng, n, st):
+    """dense digit-count pass: the numerals of MAX, MAX+1, MIN, MIN-1 and of the largest power of the radix in every string radix (with and
+    without leading zeros), and the digit slices of the all-ones pattern (+1) in a few slice radices"""
+    for r in range(2, 37):
+        cap = capacity(cfg, r)
+        for v in (cfg.max, cfg.max + 1, cfg.min, cfg.min - 1, r ** (cap - 1), r ** (cap - 1) - 1):
+            s = (b'-' if v < 0 else b'') + numeral(v, r)
+            yield 'ps', (s, r)
+        v = rng.choice((cfg.max, cfg.min, cfg.max + 1))
+        yield 'ps', ((b'-' if v < 0 else b'+') + b'0' * rng.choice((1, 2, cap, cap + 1)) + numeral(v, r), r)
+    for r in (2, 3, 4, 10, 16, 100, 255, 256, rng.randrange(2, 257)):
+        ds = to_digits(cfg.mask, r)
+        yield 'pd', (bytes(ds), r)
+        yield 'pd', (bytes(ds[::-1]), r)
+        yield 'pd', (bytes([0] * rng.choice((1, 2, len(ds))) + ds), r)
+        yield 'pd', (bytes(to_digits(cfg.mask + 1, r)), r)
